@@ -109,6 +109,11 @@ def model():
         p.append('  <businessKnowledgeModel name="%s" id="_%s"><variable name="%s" typeRef="%s"/><encapsulatedLogic><literalExpression><text>%s</text></literalExpression></encapsulatedLogic></businessKnowledgeModel>'
                  % (name, name, name, tref, text.replace('&', '&amp;').replace('<', '&lt;').replace('"', '&quot;')))
         bkms.append(name)
+    # the same knowledge models CALLED from decision logic without arguments (a function of no parameters with a typed result): the result of the call is coerced alike
+    for b_ in bkms:
+        d = 'Call_' + b_
+        p.append('  <decision name="%s" id="_%s"><variable name="%s"/><knowledgeRequirement><requiredKnowledge href="#_%s"/></knowledgeRequirement><literalExpression><text>%s()</text></literalExpression></decision>' % (d, d, d, b_, b_))
+        decisions.append(d)
     p.append('</definitions>')
     return '\n'.join(p), decisions + services + bkms
 
@@ -166,7 +171,9 @@ def cases():
     out.append(('{InOddRows: [{price/unit: 1, unit price: 2}]}', {'Echo_InOddRows': '[{price/unit: 1, unit price: 2}]'}))
     out.append(('{}', {'Out_Odd_ok': '{price/unit: 1, unit price: 2}', 'Out_OddRows_ok': '[{price/unit: 1, unit price: 2}, {price/unit: 3, unit price: 4}]', 'Out_OddRows_bad': 'null',
                        'Bk_wrap': '[5]', 'Bk_unwrap': '7', 'Bk_same': '7', 'Bk_list': '[1, 2]', 'Bk_wrong': 'null', 'Bk_wrong_item': 'null', 'Bk_pair': '{a: 1, b: true}',
-                       'Bk_pair_more': '{a: 1, b: true, c: 3}', 'Bk_pair_less': 'null', 'Bk_pair_wrap': '[{age: 1, name: "a"}]'}))
+                       'Bk_pair_more': '{a: 1, b: true, c: 3}', 'Bk_pair_less': 'null', 'Bk_pair_wrap': '[{age: 1, name: "a"}]',
+                       'Call_Bk_wrap': '[5]', 'Call_Bk_unwrap': '7', 'Call_Bk_same': '7', 'Call_Bk_list': '[1, 2]', 'Call_Bk_wrong': 'null', 'Call_Bk_wrong_item': 'null', 'Call_Bk_pair': '{a: 1, b: true}',
+                       'Call_Bk_pair_more': '{a: 1, b: true, c: 3}', 'Call_Bk_pair_less': 'null', 'Call_Bk_pair_wrap': '[{age: 1, name: "a"}]'}))
     return out
 
 
